@@ -89,7 +89,9 @@ class Monitor(Observer):
         exact = [d for d in cm.diffs]
         if exact or cm.nbit != cm.nfloat:
             what = exact[0] if exact else "a float changed in the low bits"
-            ctx.violation("C08/update-not-idempotent", "after op %d %s: update x%d after update changed the snapshot: %s" % (i, step["op"]["op"], k, what),
+            tolv = float(bt.core.TOL)
+            dust = any(isinstance(m, bt.core.SecurityBase) and 0 < abs(m._position) < tolv for m in root.members)
+            ctx.violation("C08/update-not-idempotent" + (":dust" if dust else ""), "after op %d %s: update x%d after update changed the snapshot: %s" % (i, step["op"]["op"], k, what),
                           {"spec": spec, "upto": i})
         if step["pending"]:
             return
@@ -124,7 +126,16 @@ def _short(v):
     return v
 
 
+def corpus():
+    import glob, json, os
+    here = os.path.dirname(os.path.dirname(os.path.dirname(os.path.abspath(__file__))))
+    return [json.load(open(f))["spec"] for f in sorted(glob.glob(os.path.join(here, "corpus", "C08_*.json")))]
+
+
 def run(ctx, bt):
+    for sp in corpus():
+        run_history_observed(bt, copy.deepcopy(sp), ctx.rng, len(sp["ops"]), [Monitor(ctx, 1.0)], ctx)
+        ctx.evaluations += 1
     run_engine_protocol(ctx, bt, ctx.scale(90, 900), [Monitor(ctx)], None, None, corr_name="step[C08]:whole-snapshot")
 
 
